@@ -1,8 +1,8 @@
 """C11 - an operation that raises leaves the database as it was, and still usable."""
 from .common import *
 ID = "C11"
-FUNCTIONS = [TF + f for f in ("_insert_helper", "insert", "insert_multiple", "_update_helper", "update", "update_all")] + [IX + f for f in ("insert", "invalidate", "latest_time", "empty")] + ["lemma:count"]
-ASSUMED = ["tinyflux.database.TinyFlux._generate_updater"]
+FUNCTIONS = [TF + f for f in ("_insert_helper", "insert", "insert_multiple", "_update_helper", "update", "update_all")] + [IX + f for f in ("insert", "invalidate", "latest_time", "empty")] + ["lemma:count"] + [TF + "_generate_updater", TF + "_generate_updater.<locals>.perform_update"] + ["tinyflux.point.validate_tags", "tinyflux.point.validate_fields"]
+ASSUMED = []
 STANDIN = "standins/dbdiff.py"
-TRUSTED = TRUSTED_CORE + [STORAGE_ASSUMED, QUERY_ASSUMED, TIME_ASSUMED, "INTERFACE contract of _generate_updater / perform_update (not proved against their bodies): validation of static arguments precedes every effect"]
+TRUSTED = TRUSTED_CORE + [STORAGE_ASSUMED, QUERY_ASSUMED, TIME_ASSUMED, "the Any universe of contracts/any_model.py for update arguments"]
 ASSUMPTIONS = [A_ALIAS, "KF-18: MemoryStorage applies updates in place; relative to the non-aliasing Storage contract"]
